@@ -106,6 +106,27 @@ def check(ctx, rep, cfg):
         srcs.add(f.key)
         rep.ob("SOURCE", "%s|%s%s" % (f.path, c.path, tag), ok,
                "RNG primitive %s called from %s" % (c.full, f.path), loc=c.loc())
+    # the source functions fill the *whole* buffer they are given / return, once, on every path: the
+    # primitive's operand is an un-narrowed view of the out-parameter or of the returned buffer, the call
+    # is not inside a loop over pieces, and it dominates every return
+    from ..inline import inline as _inl
+    for k in sorted(srcs | {g.key for g in prog.fns if g.path.startswith("rng::") and g.kind != "closure" and g.vis == "pub"}):
+        g = _inl(prog, prog.by_key[k])
+        pcs = [c for c in g.calls() if is_rng_prim(c)]
+        if not pcs:
+            continue
+        rets = [b for b in range(g.n) if g.blocks[b]["t"]["k"] == "return"]
+        for c in pcs:
+            bufarg = c.args[1] if len(c.args) > 1 else (c.args[0] if c.args else None)
+            ls = list(operand_locals(bufarg)) if bufarg else []
+            root, narrowed = cm.view_info(g, ls[0]) if ls else (None, True)
+            is_out = root is not None and (1 <= root <= g.argc or root in g.backward_slice([0]))
+            in_loop = c.bb in g.reachable_from_after(c.bb)
+            okc = is_out and not narrowed and not in_loop and all(must_pass(g, [c.bb], r) for r in rets)
+            rep.ob("SOURCE", "%s|fills the whole buffer%s" % (g.path, tag), okc,
+                   "RNG primitive operand is %s view of %s; in a loop: %s; on every path: %s" % (
+                       "a narrowed" if narrowed else "the whole", g.local_name(root) if root is not None else "?", in_loop,
+                       all(must_pass(g, [c.bb], r) for r in rets)), loc=c.loc())
     other_impls = [i for i in prog.impls if (i.get("trait") or "").startswith(("rand_core::", "rand::"))]
     rep.ob("SOURCE", "no crate-local RNG implementation" + tag, not other_impls,
            "impls of rand_core traits in the crate: %s" % [i["self_ty"]["t"] for i in other_impls])
